@@ -82,8 +82,11 @@ Fails == {"{{ x }}", "{{ y = 2 }}{{ x }}",
           "@dump(1){{ zz }}", "@dump({a: 1})@if(true){{ 1 / 0 }}@end",
           "partial {{ 1 }}{{ zz }}", "@each(v in [1, 2])p{{ v }}{{ 1 / (v - 2) }}@end", "head@if(true)in{{ 1 + \"s\" }}@end", "{{ zz }}never"}
 Srcs == Goods \cup Fails
-SeqCases == {[kind |-> "seq", steps |-> <<a, b, c>>, tags |-> <<"c14", "sequence">>] : a \in Srcs, b \in Fails, c \in Srcs}
-            \cup {[kind |-> "seq", steps |-> <<a, b, a, c, a>>, tags |-> <<"c14", "sequence">>] : a \in Goods, b \in Fails, c \in Fails}
+\* expok: whether each step renders or fails - the same whatever ran before it in the process
+OkOf(steps) == [i \in 1..Len(steps) |-> steps[i] \in Goods]
+SeqCases == {[kind |-> "seq", steps |-> <<a, b, c>>, expok |-> OkOf(<<a, b, c>>), tags |-> <<"c14", "sequence">>] : a \in Srcs, b \in Fails, c \in Srcs}
+            \cup {[kind |-> "seq", steps |-> <<a, b, a, c, a>>, expok |-> OkOf(<<a, b, a, c, a>>), tags |-> <<"c14", "sequence">>] : a \in Goods, b \in Fails, c \in Fails}
+            \cup {[kind |-> "seq", steps |-> <<a, b, c>>, expok |-> OkOf(<<a, b, c>>), tags |-> <<"c14", "sequence">>] : a \in Goods, b \in Goods, c \in Srcs}
 Cases == RenderCases \cup TreeCases \cup SeqCases
 Init == cas \in Cases /\ rec = FALSE
 Next == ~rec /\ rec' = TRUE /\ UNCHANGED cas
